@@ -24,3 +24,9 @@ func Rethrow(link *Defer) {
 		setjmp.Longjmp((*setjmp.JmpBuf)(link.Addr), 1)
 	}
 }
+
+// Single-threaded: the innermost pending panic lives in a global.
+var curPanic *panicRec
+
+func getPanic() *panicRec  { return curPanic }
+func setPanic(p *panicRec) { curPanic = p }
